@@ -224,6 +224,14 @@ func profileFor(prop string) profile {
 		pr.byz = 0.3
 	case "C12":
 		pr.forceWire = true
+	case "C08":
+		pr.byz = 0.7
+		pr.acts = []string{"futuretimeout", "futuretimeout", "badtimeoutsig", "badtimeoutsig", "staleTC", "replay", "silent", "equivocate", "relabel", "aggreplay", "nosig"}
+		pr.leaders = []string{"round-robin", "fixed", "scripted"}
+	case "C09":
+		pr.byz = 0.7
+		pr.acts = []string{"dupvote", "multivote", "multivote", "zerovote", "zerovote", "unknownvote", "strayvote", "replay", "equivocate", "futuretimeout"}
+		pr.leaders = []string{"round-robin", "fixed", "scripted"}
 	case "C16":
 		pr.byz = 0.3
 		pr.leaders = []string{"round-robin", "fixed", "carousel", "carousel", "reputation", "reputation"}
@@ -238,6 +246,9 @@ func GenPlan(prop string, seed uint64) *Plan {
 	p := &Plan{Version: 1, Property: prop, Seed: seed, Inner: g.u64(), World: "consensus"}
 
 	p.N = pick(g, 4, 4, 4, 4, 7, 7)
+	if prop == "C09" && g.p(0.4) {
+		p.N = 7 // two colluding Byzantine replicas need n >= 7
+	}
 	if pr.nSwarm && g.p(0.25) {
 		p.N = g.rng(1, 13)
 	}
@@ -245,6 +256,9 @@ func GenPlan(prop string, seed uint64) *Plan {
 	p.Crypto = []string{"eddsa", "ecdsa", "bls12"}[g.weighted(60, 28, 12)]
 	p.Cache = pick(g, 0, 0, 1, 2, 3, 5, 8, 16, 64, 100)
 	p.SyncVerify = true
+	if prop == "C08" && p.Ruleset != "fasthotstuff" && g.p(0.4) {
+		p.Knobs = map[string]int{"aggqc": 1}
+	}
 	p.Wire = pr.forceWire || g.p(0.6)
 	p.Leader = pick(g, pr.leaders...)
 	if p.Leader == "scripted" {
@@ -266,6 +280,16 @@ func GenPlan(prop string, seed uint64) *Plan {
 	p.MaxViews = g.rng(12, 70)
 	p.MaxSteps = 60000
 
+	if p.Crypto == "bls12" {
+		// pairings are ~100x slower than Ed25519: keep these runs short
+		p.MaxViews = g.rng(8, 16)
+		if p.N > 4 {
+			p.MaxViews = g.rng(6, 10)
+		}
+		if p.UntilMs > 12*p.ViewDur.Ms {
+			p.UntilMs = 12 * p.ViewDur.Ms
+		}
+	}
 	if pr.clients {
 		p.Clients = g.rng(2, 6)
 		p.Filler = g.p(0.5)
